@@ -153,6 +153,10 @@ func (c *Conn) getRedo() [][]byte {
 	// so instead let's leverage a select. as soon as it blocks (due to chan close or no more input but not closed yet) we know we're
 	// done reading and move on. it's easy to prove in the implementer that we don't send any more data to In after calling this
 	defer c.clearRedo()
+	// the conn is no longer alive, but HandleData may not have noticed yet: it can still be holding
+	// a line it took out of In and has not added to keepSafe yet. wait until it (and checkEOF) returned,
+	// otherwise that line would be in neither of the two places we collect from below
+	c.wg.Wait()
 	verifPoint("getredo-start")
 	for {
 		select {
